@@ -88,7 +88,7 @@ def gen_network(rng) -> dict:  # noqa: ANN001
     feats = set()
     nr = rng.randint(1, 4)
     for j in range(nr):
-        kind = rng.choice(["influx", "efflux", "uni", "uni", "bi", "split", "bibi", "homodimer", "bystander"])
+        kind = rng.choice(["influx", "efflux", "uni", "uni", "bi", "split", "bibi", "homodimer", "bystander", "cofactor_first"])
         k = f"k{j}"
         lab = [c for c in names if c != "U"]
         if kind == "influx":
@@ -115,6 +115,18 @@ def gen_network(rng) -> dict:  # noqa: ANN001
             else:
                 s1, s2, p1, p2 = rng.sample(lab, 4)
                 st, fn, args = {s1: -1, p1: 1, s2: -1, p2: 1}, fl.ma2, [k, s1, s2]
+        elif kind == "cofactor_first" and "U" in names:
+            # an unlabelled cofactor listed first in the stoichiometry (consumed, and possibly regenerated as product) that
+            # the rate law does not name: the rate's arguments are not a prefix of the stoichiometric order
+            s, p = rng.sample(lab, 2)
+            st = {"U": -1, s: -1, p: 1} if rng.random() < 0.5 else {"U": -1, s: -1, p: 1, "U2": 1}
+            if "U2" in st:
+                if "U2" not in names:
+                    names.append("U2")
+                    labels["U2"] = 0
+                    y0["U2"] = round(rng.uniform(0.2, 3.0), 3)
+                    comps.append({"kind": "variable", "name": "U2", "value": y0["U2"]})
+            fn, args = fl.ma1, [k, s]
         elif kind == "homodimer":
             s, p = rng.sample(lab, 2)
             st, fn, args = {s: -2, p: 1}, fl.ma2, [k, s, s]
